@@ -193,6 +193,8 @@ esl_sqascii_Open(char *filename, int format, ESL_SQFILE *sqfp)
   ascii->prvbpl     = -1; /* (ditto) */
   ascii->currpl     = -1;
   ascii->curbpl     = -1;
+  ascii->maxrpl     = 0;
+  ascii->maxxpl     = 0;
   ascii->ssi        = NULL;
 
   /* MSA formats are handled entirely by msafile module - 
@@ -2231,6 +2233,44 @@ nextchar(ESL_SQFILE *sqfp, char *ret_c)
   return eslOK;
 }
 
+/* seebuf_linegeometry()
+ * Bring <rpl>,<bpl> up to date with the current line (<currpl>,<curbpl>;
+ * <at_eol> is TRUE if its newline has just been counted, FALSE if the line
+ * is (so far) unterminated) and the line before it in the same record
+ * (<prvrpl>,<prvbpl>; -1 if none).
+ *
+ * <rpl>,<bpl> stay > 0 only while every line that is followed by another
+ * line of its record has exactly <rpl> residues in <bpl> bytes, and no line
+ * at all -- last, only, or unterminated line of a record -- has more
+ * residues than <rpl>, or more ignored bytes (blanks, \r; the newline not
+ * counted) than the <bpl>-<rpl>-1 of a full line; so that bpl==rpl+1 means
+ * "residue i of a line is its byte i" on every line. <maxrpl>,<maxxpl>
+ * remember the worst line seen so far, because the widths may only get
+ * established by a later record. Safe to call any number of times per line.
+ */
+static void
+seebuf_linegeometry(ESL_SQASCII_DATA *ascii, int at_eol)
+{
+  int xpl;
+
+  if (ascii->curbpl <= 0 || ascii->currpl == -1) return; /* not tracking (-1), or nothing on this line yet */
+
+  xpl = ascii->curbpl - ascii->currpl - (at_eol ? 1 : 0);
+  if (ascii->currpl > ascii->maxrpl) ascii->maxrpl = ascii->currpl;
+  if (xpl           > ascii->maxxpl) ascii->maxxpl = xpl;
+
+  if (ascii->prvrpl != -1 && ascii->prvbpl != -1) /* prv line is followed by this one: it has to be a full line */
+    {
+      if      (ascii->rpl    == -1)         ascii->rpl = ascii->prvrpl; /* init  */
+      else if (ascii->prvrpl != ascii->rpl) ascii->rpl = 0;             /* inval */
+      if      (ascii->bpl    == -1)         ascii->bpl = ascii->prvbpl; /* init  */
+      else if (ascii->prvbpl != ascii->bpl) ascii->bpl = 0;             /* inval */
+    }
+  if (ascii->rpl > 0 && ascii->bpl > 0 &&
+      (ascii->maxrpl > ascii->rpl || ascii->maxxpl > ascii->bpl - ascii->rpl - 1))
+    ascii->rpl = ascii->bpl = 0;                                        /* inval: some line is longer than a full line */
+}
+
 /* seebuf()
  * 
  * Examine and validate the current buffer <sqfp->buf> from its
@@ -2306,16 +2346,7 @@ seebuf(ESL_SQFILE *sqfp, int64_t maxn, int64_t *opt_nres, int64_t *opt_endpos)
          if (ascii->currpl != -1) ascii->currpl += nres - nres2;
          nres2        += nres - nres2;
 
-         if (ascii->rpl != 0 && ascii->prvrpl != -1) { /* need to treat counts on last line in record differently (can be shorter but not longer), hence cur/prv */
-           if      (ascii->rpl    == -1)         ascii->rpl = ascii->prvrpl; /* init  */
-           else if (ascii->prvrpl != ascii->rpl) ascii->rpl = 0;             /* inval */
-           else if (ascii->currpl  > ascii->rpl) ascii->rpl = 0;             /* inval, this covers case when final line is longer */
-         }
-         if (ascii->bpl != 0 && ascii->prvbpl != -1) {
-           if      (ascii->bpl    == -1)         ascii->bpl = ascii->prvbpl; /* init  */
-           else if (ascii->prvbpl != ascii->bpl) ascii->bpl = 0;             /* inval */
-           else if (ascii->curbpl  > ascii->bpl) ascii->bpl = 0;             /* inval, this covers case when final line is longer */
-         }
+         seebuf_linegeometry(ascii, TRUE);
 
          ascii->prvbpl  = ascii->curbpl;
          ascii->prvrpl  = ascii->currpl;
@@ -2331,6 +2362,7 @@ seebuf(ESL_SQFILE *sqfp, int64_t maxn, int64_t *opt_nres, int64_t *opt_endpos)
 
   if (ascii->curbpl != -1) ascii->curbpl += bpos - lasteol - 1;
   if (ascii->currpl != -1) ascii->currpl += nres - nres2;
+  seebuf_linegeometry(ascii, FALSE); /* a record's last line may end at EOF or at the EOD char, without a newline */
   if (opt_nres   != NULL) *opt_nres   = nres;
   if (opt_endpos != NULL) *opt_endpos = bpos;
   return status;
@@ -3343,6 +3375,8 @@ esl_sqascii_Parse(char *buf, int size, ESL_SQ *sq, int format)
   ascii->prvbpl       = -1;/* (ditto) */
   ascii->currpl       = -1;
   ascii->curbpl       = -1;
+  ascii->maxrpl       = 0;
+  ascii->maxxpl       = 0;
   ascii->ssi          = NULL;
 
   /* Configure the <sqfp>'s parser and inmaps for this format. */
